@@ -768,10 +768,13 @@ class Background2D:
         background map check image in SourceExtractor.
         """
         data = self._interpolate_grid(self._bkg_stats)
+        # filter before deleting _bkg_stats: the selective filter
+        # (filter_threshold) reads it
+        data = self._filter_grid(data)
         if ('background_rms_mesh' in self.__dict__
                 or self.filter_threshold is None):
             self._bkg_stats = None  # delete to save memory
-        return self._apply_units(self._filter_grid(data))
+        return self._apply_units(data)
 
     @lazyproperty
     def background_rms_mesh(self):
